@@ -177,12 +177,12 @@ func (prop) Run(in json.RawMessage, _ string) core.Result {
 
 	var ws []string
 	p, _ := core.Recover(func() { ws = camelcase.Split(s) })
-	obs.SplitPanic, obs.Words = p, ws
+	obs.SplitPanic, obs.Words = p, append([]string(nil), ws...)
 	// purity: a second call gives the same answer
 	if !p {
 		var ws2 []string
 		p2, _ := core.Recover(func() { ws2 = camelcase.Split(s) })
-		if p2 || strings.Join(ws2, "\x00") != strings.Join(ws, "\x00") || len(ws) != len(ws2) {
+		if p2 || strings.Join(ws2, "\x00") != strings.Join(obs.Words, "\x00") || len(obs.Words) != len(ws2) {
 			res.GoViolations = append(res.GoViolations, "Split is not a pure function of its input")
 		}
 	}
@@ -224,9 +224,44 @@ func (prop) Run(in json.RawMessage, _ string) core.Result {
 			res.GoViolations = append(res.GoViolations, fmt.Sprintf("converter %d is not a pure function of its input", k))
 		}
 	}
+	// The returned word list belongs to the caller: whatever the caller does to it in place (sort, change case, overwrite,
+	// filter with ws[:0]) must not be seen by a later Split or converter call on the same input.  Scribble over every
+	// slice handed out so far, then ask again.
+	if !p {
+		handed := [][]string{ws}
+		for round := 0; round < 2; round++ {
+			for _, h := range handed {
+				scribble(h, round)
+			}
+			var ws3 []string
+			p3, _ := core.Recover(func() { ws3 = camelcase.Split(s) })
+			if p3 || !sameWords(ws3, obs.Words) {
+				res.GoViolations = append(res.GoViolations, fmt.Sprintf("Split(%q) returns %q after the caller modified, in place, the slice an earlier Split(%q) returned (first answer %q): the concatenation is not the input / not a function of the input alone", s, ws3, s, obs.Words))
+				break
+			}
+			handed = append(handed, ws3)
+			bad := false
+			for k, f := range convs {
+				if obs.ConvPanic[k] {
+					continue
+				}
+				var r2 string
+				pk, _ := core.Recover(func() { r2 = f(s) })
+				if pk || r2 != obs.Conv[k] {
+					res.GoViolations = append(res.GoViolations, fmt.Sprintf("converter %d returns %q for %q after the caller modified, in place, a slice returned by Split(%q); it returned %q before: not a pure function of its input", k, r2, s, s, obs.Conv[k]))
+					bad = true
+					break
+				}
+			}
+			if bad {
+				break
+			}
+		}
+	}
 	res.Observed = obs
 
 	// Coq case
+	ws = obs.Words
 	var inTerm string
 	if valid {
 		inTerm = "(Valid " + coqRunes(s) + ")"
@@ -272,6 +307,37 @@ func (prop) Run(in json.RawMessage, _ string) core.Result {
 	return res
 }
 
+func sameWords(a, b []string) bool {
+	if len(a) != len(b) {
+		return false
+	}
+	for i := range a {
+		if a[i] != b[i] {
+			return false
+		}
+	}
+	return true
+}
+
+// scribble modifies a returned word list in place the way callers do: round 0 lower-cases/upper-cases and reverses the
+// order, round 1 overwrites every element.  (append is not used: it reallocates when len == cap and proves nothing.)
+func scribble(ws []string, round int) {
+	for i, j := 0, len(ws)-1; i < j; i, j = i+1, j-1 {
+		ws[i], ws[j] = ws[j], ws[i]
+	}
+	for i, w := range ws {
+		if round == 0 {
+			if u := strings.ToUpper(w); u != w {
+				ws[i] = u
+			} else {
+				ws[i] = strings.ToLower(w) + "x"
+			}
+		} else {
+			ws[i] = "scribbled"
+		}
+	}
+}
+
 // Shrink: drop one byte-aligned rune, or halve.
 func (prop) Shrink(in json.RawMessage) []json.RawMessage {
 	var inp input
@@ -301,15 +367,19 @@ func (prop) Shrink(in json.RawMessage) []json.RawMessage {
 // function of its input: the answer depends on what the process converted before.  Hidden state is invisible from
 // inside one process (the first answer is simply repeated), so the same list of related inputs (the same fresh words at
 // different positions) is converted by two fresh child processes, one in list order and one in reverse order; every
-// input must get the same answer in both.
+// input must get the same answer in both.  The child plays a caller that modifies, in place, every word list Split
+// handed to it before it converts the next input, and a quarter of the inputs occur twice in the list: a Split that
+// hands out one shared (cached) slice per input answers the second occurrence with the modified words.
 func histRun(seq []string) []string {
 	var out []string
-	for _, s := range seq {
+	for i, s := range seq {
+		var got []string
 		for k := -1; k < len(convs); k++ {
 			var o string
 			p, _ := core.Recover(func() {
 				if k < 0 {
-					o = strings.Join(camelcase.Split(s), "\x00")
+					got = camelcase.Split(s)
+					o = strings.Join(got, "\x00")
 				} else {
 					o = convs[k](s)
 				}
@@ -319,6 +389,8 @@ func histRun(seq []string) []string {
 			}
 			out = append(out, o)
 		}
+		// the caller owns the word list it got: it modifies it in place before the next input is converted
+		scribble(got, i&1)
 	}
 	return out
 }
@@ -380,6 +452,13 @@ func (prop) Extra(r *core.RNG, tier string, _ string) (violations []string, note
 		}
 		seq = append(seq, b.String())
 	}
+	// repeats: the same input again later in the same process, after its first word list was modified in place by the
+	// caller (a Split that hands out a shared, cached slice answers differently the second time)
+	for i, m := 0, len(seq)/4; i < m; i++ {
+		at := r.Intn(len(seq) + 1)
+		x := seq[r.Intn(len(seq))]
+		seq = append(seq[:at], append([]string{x}, seq[at:]...)...)
+	}
 	rev := make([]string, len(seq))
 	for i, s := range seq {
 		rev[len(seq)-1-i] = s
@@ -399,14 +478,14 @@ func (prop) Extra(r *core.RNG, tier string, _ string) (violations []string, note
 				alone, _ := histChild([]string{s})
 				for _, h := range append(append([]string{}, seq[:i]...), rev[:len(seq)-1-i]...) {
 					if two, err := histChild([]string{h, s}); err == nil && alone != nil && len(two) == 2*per && two[per+k] != alone[k] {
-						violations = append(violations, fmt.Sprintf("not a pure function of its input (minimal history): function #%d (0=Split, 1..6=the six converters) returns %q for %q in a fresh process, but %q when %q was converted before it",
+						violations = append(violations, fmt.Sprintf("not a pure function of its input (minimal history): function #%d (0=Split, 1..6=the six converters) returns %q for %q in a fresh process, but %q when %q was converted before it (the caller modifies every word list Split returned, in place, before the next call)",
 							k, alone[k], s, two[per+k], h))
 						break
 					}
 				}
 			}
 			if x != y && len(violations) < 4 {
-				violations = append(violations, fmt.Sprintf("not a pure function of its input: function #%d (0=Split, 1..6=the six converters) returns %q for %q in a process that first converted %q, but %q in a process that first converted %q",
+				violations = append(violations, fmt.Sprintf("not a pure function of its input: function #%d (0=Split, 1..6=the six converters) returns %q for %q in a process that first converted %q, but %q in a process that first converted %q (the caller modifies every word list Split returned, in place, before the next call)",
 					k, x, s, seq[:i], y, rev[:len(seq)-1-i]))
 			}
 		}
